@@ -188,11 +188,14 @@ def decode_name(n: str) -> str:
 
 def gen_alloc(chk: Check, maxlen: int, taglen: int | None = None) -> list[dict]:
     taglen = maxlen - 1 if taglen is None else taglen
+    enumlen = maxlen - 1
     cfg = f"""SPECIFICATION Spec
 CONSTANTS
  MaxLen = {maxlen}
  NsKinds = {tla(set(NS_KINDS))}
  TagLen = {taglen}
+ EnumLen = {enumlen}
+ EnumBig = {tla(maxlen > 3)}
 CHECK_DEADLOCK FALSE
 """
     r = run_tlc(chk.scratch, "Gen_Alloc", cfg, workers=8)
@@ -200,7 +203,8 @@ CHECK_DEADLOCK FALSE
     sc = r.printed.get("SCEN", [])
     chk.require(len(sc) > 0, "Gen_Alloc produced no scenario")
     for s in sc:
-        s["names"] = [decode_name(n) for n in s["names"]]
+        if s["ns"] != "enumvals":
+            s["names"] = [decode_name(n) for n in s["names"]]
     sc.sort(key=lambda d: json.dumps(d, sort_keys=True))
     return sc
 
@@ -324,6 +328,8 @@ def build_doc(sc: dict) -> dict | None:
     if kind == "ops":
         paths = {f"/o{i}": {"get": {"operationId": n, "tags": ["T"], "summary": f"OPTOK{i}", "responses": {"204": {"description": "ok"}}}} for i, n in enumerate(names)}
         return concretise.wrap({}, paths)
+    if kind == "enumvals":
+        return concretise.wrap({"Kind": {"type": sc["family"], "enum": [enum_value(n) for n in names]}})
     if kind == "tagops":
         # one operation per name, tagged as the scenario says; plus one single-tagged "beacon" operation per tag, so that
         # the client class of a tag is identified by the beacon it contains and not by a sanitiser
@@ -332,6 +338,23 @@ def build_doc(sc: dict) -> dict | None:
             paths[f"/beacon{j}"] = {"get": {"operationId": f"zzbeacon{j}", "tags": [tag], "summary": f"OPTOK9{j}", "responses": {"204": {"description": "ok"}}}}
         return concretise.wrap({}, paths)
     raise ValueError(kind)
+
+
+def enum_value(tagged: str) -> Any:
+    """Gen_Alloc writes a JSON value as "<type>:<text>"."""
+    k, _, v = tagged.partition(":")
+    return {"b": lambda: v == "true", "i": lambda: int(v), "n": lambda: float(v), "s": lambda: v, "z": lambda: None}[k]()
+
+
+def member_forms(tagged: str, ty: str) -> set:
+    """The member values under which a declared JSON value may legitimately appear in the generated Enum."""
+    v = enum_value(tagged)
+    if ty == "string":
+        return {v} if isinstance(v, str) else {str(v), json.dumps(v)}
+    try:
+        return {int(v)}
+    except (TypeError, ValueError):
+        return set()
 
 
 def tags_of(sc: dict) -> list[str]:
@@ -434,6 +457,26 @@ def observe(sc: dict, o: dict) -> tuple[dict | None, str]:
             req["ops"] = [cps(n) for n in names]
             present["ops"] = [cps(fn) for fn, _ in live]
             back["ops"] = [[cps(fn), cps(token[t])] for fn, info in live for t in info["tokens"] if t in token]
+    elif kind == "enumvals":
+        if models_broken:
+            return None, "unimportable"
+        cl = [c for c in models.get("classes", []) if c["kind"] == "enum"]
+        if len(cl) != 1:
+            return None, "unimportable" if not cl else "ambiguous"
+        declared = list(dict.fromkeys(names))  # distinct JSON values (type AND value): the tagged texts differ
+        forms = {n: member_forms(n, sc["family"]) for n in declared}
+        if any(not f for f in forms.values()):
+            return None, "value_not_of_the_declared_type"
+        if any(forms[a] & forms[b] for i, a in enumerate(declared) for b in declared[i + 1 :]):
+            return None, "values_share_a_wire_form"  # e.g. true and "True" in a string enum: one member may stand for both
+        mem = cl[0]["members"]
+        for n in declared:
+            for nm, val in mem:
+                if any(type(val) is type(f) and val == f for f in forms[n]):
+                    ev.append(_ev("enumvals", n, nm))
+        req["enumvals"] = [cps(n) for n in declared]
+        present["enumvals"] = [cps(nm) for nm, _ in mem]
+        back["enumvals"] = [[cps(nm), cps(n)] for n in declared for nm, val in mem if any(type(val) is type(f) and val == f for f in forms[n])]
     elif kind == "tagops":
         eps = nam.get("endpoints", [])
         if not eps or not all(e["parse_ok"] for e in eps):
@@ -570,6 +613,14 @@ def part_ii(chk: Check, scens: list[dict], label: str = "packages") -> None:
                     shared = txt([x["ident"] for x in t["ev"] if x["ns"] == f["ns"] and x["spec"] == spec0][-1])
                 m = re.search(r"(?:_\d+)+$", shared)
                 loc["ident_suffix_depth"] = len(re.findall(r"_\d+", m.group(0))) if m else 0
+            if f["clause"] == "C20.dropped" and sc["ns"] == "enumvals":
+                # plain predicates on the declared values: JSON type of the value without a member, and whether the host
+                # language considers it equal to another declared value of a different JSON type / spelling
+                v0 = enum_value(who[0])
+                loc["value_type"] = who[0].partition(":")[0]
+                loc["host_equal_to_other"] = any(n != who[0] and type(enum_value(n)) is not str and type(v0) is not str and enum_value(n) is not None and v0 is not None and enum_value(n) == v0 for n in sc["names"])
+                chk.fail(f["clause"], loc, scen, f"enum values {sc['names']} ({sc['family']}): no member for {who[0]}; members {[txt(p) for p in t['present'].get(f['ns'], [])]}")
+                continue
             if f["clause"] == "C20.dropped":
                 loc["input_class"] = f["cls"]
                 got = {txt(e["spec"]) for e in t["ev"] if e["ns"] == f["ns"]}
@@ -590,7 +641,7 @@ def run(chk: Check) -> None:
     chk.cov["rule"] = (
         f"(i) every string of length <={k1} over the alphabet {{a,B,1,_,-,space,.,$,U+00E9,U+540D}} plus 10 case/separator variants of every "
         f"keyword, plus every string of length <={ku} over 13 symbols representing Unicode classes (\\w-not-XID, XID_Continue-not-Start, NFKC-compatibility, length-changing case), through the 10 derivations on the generation path; (ii) every allocation order (sequence without repetition) of "
-        f"length <={k2} from 6 colliding families (one of NFKC-equivalent names) in each of 5 namespace kinds, plus colliding operationIds (2..{k2 - 1} of them) reaching one client class through different tag positions (tag lists [T], [U,T], [T,U], [V,T]), generated + imported; non-trivial = input that is not "
+        f"length <={k2} from 6 colliding families (one of NFKC-equivalent names) in each of 5 namespace kinds, plus enum value lists (<={k2 - 1} values, repetition allowed) that mix JSON types whose Python values compare equal, plus colliding operationIds (2..{k2 - 1} of them) reaching one client class through different tag positions (tag lists [T], [U,T], [T,U], [V,T]), generated + imported; non-trivial = input that is not "
         f"already an ASCII identifier (i) / namespace with >=2 names (ii)"
     )
     chk.assumptions += [
